@@ -576,7 +576,9 @@ pub fn run_property(def: PropertyDef, tier: Tier, seed: u64, replay: Option<Path
                 found.extend(replay_file(&def, f, &run.stats));
             }
         }
-        for prop in def.props.iter() {
+        // debugging aid (never set by registered commands): VERIF_ONLY=<sub-check> runs one sub-check and skips generator health
+        let only = std::env::var("VERIF_ONLY").ok();
+        for prop in def.props.iter().filter(|p| only.as_deref().is_none_or(|o| o == p.name())) {
             found.extend(prop.run(&run));
         }
         if let Some(extra) = def.extra.as_ref() {
@@ -611,7 +613,7 @@ pub fn run_property(def: PropertyDef, tier: Tier, seed: u64, replay: Option<Path
 
     // generator health
     let mut health: Vec<String> = vec![];
-    if replay.is_none() {
+    if replay.is_none() && std::env::var("VERIF_ONLY").is_err() {
         for c in def.required_classes.iter() {
             if run.stats.class_count(c) == 0 {
                 health.push(format!("required class '{c}' was never produced"));
